@@ -12,7 +12,7 @@ import (
 func init() {
 	register(&propInfo{
 		ID:          "C19",
-		Explanation: "Path and value-origin analysis of the auth package. The permission checks only compare permissions for equality, so these path facts are the whole argument: (R19.1) in the per-field wrapper built by PermissionedProxy every delegation to the implementation is dominated by the true outcome of HasPerm(ctx from the call's first argument, PermissionedProxy's default-permissions parameter, the field's perm tag), and the false outcome returns an error value without delegating; (R19.2) HasPerm searches exactly the set attached to the context when one is attached (comma-ok true) and the defaults only otherwise, returns true only under element == required permission and false otherwise, and reads the same context key WithPerm writes; (R19.3) the HTTP handler reaches Next either with the original context on the token-less path or with WithPerm(ctx, allow) where allow is the verifier's own result on the verified path, and every 401 path (missing Bearer prefix, verifier error) never reaches Next; the token is taken from the Authorization header and otherwise from the token form value with the Bearer prefix added. R19.1 also requires every reflect.Value.Set in the proxy constructor to install a reflect.MakeFunc wrapper. (R19.4) the permission sets given to the proxy constructor are only read.",
+		Explanation: "Path and value-origin analysis of the auth package. The permission checks only compare permissions for equality, so these path facts are the whole argument: (R19.1) in the per-field wrapper built by PermissionedProxy every delegation to the implementation is dominated by the true outcome of HasPerm(ctx from the call's first argument, PermissionedProxy's default-permissions parameter, the field's perm tag), and the false outcome returns an error value without delegating; (R19.2) HasPerm searches exactly the set attached to the context when one is attached (comma-ok true) and the defaults only otherwise, returns true only under element == required permission and false otherwise, and reads the same context key WithPerm writes; (R19.3) the HTTP handler reaches Next either with the original context on the token-less path or with WithPerm(ctx, allow) where allow is the verifier's own result on the verified path, and every 401 path (missing Bearer prefix, verifier error) never reaches Next; the token is taken from the Authorization header and otherwise from the token form value with the Bearer prefix added. R19.1 also requires every reflect.Value.Set in the proxy constructor to install a reflect.MakeFunc wrapper. (R19.4) the permission sets given to the proxy constructor are only read. (R19.5) every request read that can reach the verifier's token reads the Authorization header or the token form value.",
 		NotDecided:  "What a user-supplied Verify function returns; reflection details of field/method matching by name in PermissionedProxy (MethodByName) beyond the tag validation; HTTP semantics of FormValue.",
 		Assumptions: []string{"PermissionedProxy's second parameter is the default permission set and its first the valid set (exported signature)", "HasPerm, WithPerm, PermissionedProxy and Handler.ServeHTTP are resolved by their exported names (public API)"},
 		Run:         runC19,
@@ -51,6 +51,8 @@ func (c *Ctx) authFn(name string) *ssa.Function {
 func runC19(c *Ctx) {
 	c.rule("R19.1", "every delegation in the permissioned wrapper is dominated by HasPerm(ctx of the call, default permissions, required tag) being true; the false outcome returns an error without delegating")
 	c.rule("R19.2", "HasPerm searches the attached set iff one is attached, else the defaults; true only under element == required; same context key as WithPerm")
+	c.rule("R19.5", "the token comes from the Authorization header or the token form value and from nowhere else: a request without either is passed on token-less, never rejected or authenticated because of some other header")
+	c.tokenSources("R19.5")
 	c.rule("R19.3", "auth HTTP handler: Next is reached only token-less with the original context or with WithPerm(ctx, verifier result); 401 paths never reach Next; missing prefix and verifier error lead to 401")
 	if !c.need("R19.1", "auth package", c.P.Auth != nil) {
 		return
@@ -992,5 +994,130 @@ func (c *Ctx) permSetsReadOnly(rule string, proxy *ssa.Function) {
 	}
 	if n == 0 {
 		c.und(rule, "permission set parameters", "-", "none found")
+	}
+}
+
+// tokenSources: R19.5. In the auth handler every request-header / form / cookie read whose result can
+// reach the verifier's token argument reads "Authorization" (header) or "token" (form value).
+func (c *Ctx) tokenSources(rule string) {
+	p := c.P
+	if p.Auth == nil {
+		c.und(rule, "auth package", "-", "not loaded")
+		return
+	}
+	var serve *ssa.Function
+	if tn, ok := p.Auth.Pkg.Scope().Lookup("Handler").(*types.TypeName); ok {
+		serve = p.SSA.LookupMethod(types.NewPointer(tn.Type()), p.Auth.Pkg, "ServeHTTP")
+	}
+	if serve == nil {
+		c.und(rule, "auth.(*Handler).ServeHTTP", "-", "not found")
+		return
+	}
+	var verifyArgs []ssa.Value
+	p.coneInstrs(serve, func(in ssa.Instruction) {
+		call, ok := in.(*ssa.Call)
+		if !ok || call.Common().IsInvoke() {
+			return
+		}
+		if _, isStatic := call.Common().Value.(*ssa.Function); isStatic {
+			return
+		}
+		sig, ok := call.Common().Value.Type().Underlying().(*types.Signature)
+		if !ok || sig.Results().Len() != 2 {
+			return
+		}
+		for _, a := range call.Common().Args {
+			if isStringType(a.Type()) {
+				verifyArgs = append(verifyArgs, a)
+			}
+		}
+	})
+	if len(verifyArgs) == 0 {
+		c.und(rule, fname(serve)+": verifier call", p.pos(serve.Pos()), "not found")
+		return
+	}
+	construct := fmt.Sprintf("%s: where the token is read from", fname(serve))
+	var bad ssa.Instruction
+	n := 0
+	// everything the verifier's token is computed from: through locals, helpers' parameters and results
+	// (origins) and through the operands of concatenations, slicings and library string functions
+	src := map[ssa.Value]bool{}
+	var back func(v ssa.Value, d int)
+	back = func(v ssa.Value, d int) {
+		if v == nil || d > 10 || src[v] {
+			return
+		}
+		src[v] = true
+		for _, o := range c.origins(v) {
+			rt := o.Root
+			if rt != v {
+				src[rt] = true
+			}
+			switch x := rt.(type) {
+			case *ssa.BinOp:
+				back(x.X, d+1)
+				back(x.Y, d+1)
+			case *ssa.Slice:
+				back(x.X, d+1)
+			case *ssa.Phi:
+				for _, e := range x.Edges {
+					back(e, d+1)
+				}
+			case *ssa.Extract:
+				back(x.Tuple, d+1)
+			case *ssa.Call:
+				if g := staticCallee(x); g == nil || !p.allFns[g] {
+					for _, a := range x.Common().Args {
+						if isStringType(a.Type()) {
+							back(a, d+1)
+						}
+					}
+				}
+			}
+		}
+	}
+	for _, va := range verifyArgs {
+		back(va, 0)
+	}
+	p.coneInstrs(serve, func(in ssa.Instruction) {
+		call, ok := in.(*ssa.Call)
+		if !ok {
+			return
+		}
+		want := ""
+		switch calleeName(call) {
+		case "(net/http.Header).Get", "(net/http.Header).Values":
+			want = "Authorization"
+		case "(*net/http.Request).FormValue", "(*net/http.Request).PostFormValue", "(net/url.Values).Get":
+			want = "token"
+		case "(*net/http.Request).Cookie":
+			want = "\x00"
+		default:
+			return
+		}
+		flows := src[call]
+		for _, va := range verifyArgs {
+			if c.dependsOn(va, func(v ssa.Value) bool { return v == ssa.Value(call) }, 0, map[ssa.Value]bool{}) {
+				flows = true
+			}
+		}
+		if !flows {
+			return
+		}
+		n++
+		key := ""
+		if args := call.Common().Args; len(args) > 0 {
+			key, _ = constString(args[len(args)-1])
+		}
+		if key != want {
+			bad = in
+		}
+	})
+	if bad != nil {
+		c.bad(rule, construct, c.ipos(bad), "a value read from another place of the request (another header, a cookie, another form field) can become the token: requests that carry no credentials in the documented places are rejected with 401 or authenticated instead of being passed on token-less")
+	} else if n == 0 {
+		c.und(rule, construct, p.pos(serve.Pos()), "no read of the request flows into the verifier's token")
+	} else {
+		c.ok(rule, construct, p.pos(serve.Pos()), "Authorization header and token form value only")
 	}
 }
